@@ -695,7 +695,14 @@ class DataOps:
         if o['flag2'] and len(groups) > 1:
             groups = groups[:-1]   # bins need not cover all time points
         bins = [np.array([tv[i] for i in g]) for g in groups]
-        if len({len(g) for g in groups}) == 1 and o['a'][2] % 2:
+        present = [np.array(b, copy=True) for b in bins]
+        if o['a'][3] % 4 == 0:
+            # bins defined on a longer time axis than the (cropped) data: a listed time point that is not recorded
+            # contributes nothing to the mean of its bin
+            j = o['a'][4] % len(bins)
+            bins[j] = np.append(bins[j], float(max(tv)) + 1000.0 + j)
+            self.ctx.probe('bin_lists_absent_time_point')
+        if len({len(b) for b in bins}) == 1 and o['a'][2] % 2:
             bins = np.array(bins)          # equal-sized bins as one 2-D array
         extra = [k for k in src.obj.time_descriptors if k != 'time']
         try:
@@ -709,7 +716,7 @@ class DataOps:
         sem['times'] = [None] * len(groups)
         s = self.pool.add(res, 'tdataset', sem, 'bin_time', [src.sid])
         s.parent_dtype = np.zeros(0, dtype=src.obj.measurements.dtype)     # means of float32 data carry float32 rounding
-        self._check_binned(s, bins)
+        self._check_binned(s, present)
         self.pool.sweep('bin_time', args=[src.sid], produced=[s.sid])
         self.ctx.behaviour('bin_time', len(groups), o['flag'], o['flag2'])
 
